@@ -25,7 +25,7 @@ import (
 func TestMain(m *testing.M) {
 	document.SetGlobalLevel(document.LogLevelSilent)
 	signal.Ignore(syscall.SIGXFSZ)
-	kit.TestMain(m, 15, 60)
+	kit.TestMain(m, 15, 120)
 }
 
 // Case: a document (op list), a size band, and how the fault offsets are chosen.
